@@ -6,6 +6,27 @@ PENDING = "check not built yet in this round (specification and driver in progre
 
 # id -> (level text, level note, technique, design ref)
 BUILT = {
+ "C05": ("DBAL.tla constructs the documented estimator of ONE plate as a term over that plate's own means / variances and the "
+         "distance matrix (log-sum over all triples i>j>k of the Gaussian triple term per experiment times the summed pairwise "
+         "distance); TLC checks that all C(n,3) triples occur once, that only the plate's own cells are read and every cell is "
+         "used, and exports the terms; the homoscedastic, heteroscedastic, vectorized (also called twice on the same padded "
+         "arrays) and GaussianDBALScorer entry points (real plate views, stub samples through predict_mean_all / "
+         "predict_variance_all, random co-scoring orders and internal batch sizes, each plate also alone) must return the "
+         "evaluated term for every plate: unequal sizes incl. 1, variances over six orders of magnitude, magnitude-disparate "
+         "plates (60 experiments at 1e-3 vs 1e3), zero distances.",
+         "triple budget covers all triples; float64 term evaluation, tolerance 1e-9 of the magnitude in the log domain.",
+         "TLA+ term construction + TLC structural invariants; spec->code evaluation of exported terms on every entry point",
+         "5/C05"),
+ "C20": ("Metrics.tla builds mse, mse variance across experiments, inter-chain variance (any chain labelling: unequal lengths, "
+         "one chain, interleaved), mean predictions, the single-agent effect map / array (arity 2 and 3, repeated measurements, "
+         "control in any column), Bliss synergy with lenient skip / strict refusal as terms from the discrete structure alone; "
+         "TLC enumerates all small structures (every pair once, chains partition columns, map domain = measured pairs + control) "
+         "and larger random ones via a cases file; every structure is evaluated against the real functions on random values; "
+         "evaluation files must reload bit-identically; combination space (all unordered combinations, ids verbatim), "
+         "similarity matrix (symmetric, unit diagonal) and calculate_mse are checked on a real screen.",
+         "similarity matrix / calculate_mse compared with their definition evaluated in the harness; float64, 1e-9.",
+         "TLA+ term construction + TLC structural invariants; spec->code evaluation of exported terms",
+         "5/C20"),
  "C09": ("Predict.tla constructs, for every experiment shape (2 samples, 3 treatments + control in either or both positions, "
          "arity 1 and 2, embedding sizes 1..3, both shipped sample types), the term the documented model assigns to mean, "
          "viability and variance; TLC checks on the terms that only the experiment's own sample and non-control treatments are "
